@@ -29,7 +29,7 @@ VARIANTS = {
     'v_nolegacy': dict(cc='gcc', cflags=['-O2', '-g'], ld=[], defs=['-DZSTD_MULTITHREAD', '-DZSTD_LEGACY_SUPPORT=0', '-DXXH_NAMESPACE=ZSTD_', '-DDEBUGLEVEL=0']),
     'asan_noasm': dict(cc='gcc', cflags=ASAN + ['-DZSTD_DISABLE_ASM'], ld=['-fsanitize=address,undefined']),
     'msan':  dict(cc='clang', cflags=['-O1', '-g', '-fsanitize=memory', '-fsanitize-memory-track-origins', '-fno-omit-frame-pointer'], ld=['-fsanitize=memory']),
-    'fuzz':  dict(cc='clang', cflags=['-O1', '-g', '-fsanitize=fuzzer-no-link,address,undefined', '-fno-sanitize-recover=all', '-fno-omit-frame-pointer'], ld=['-fsanitize=fuzzer,address,undefined']),
+    'fuzz':  dict(cc='clang', cflags=['-O1', '-g', '-fsanitize=fuzzer-no-link,address,undefined', '-fno-sanitize=pointer-overflow', '-fno-sanitize-recover=all', '-fno-omit-frame-pointer'], ld=['-fsanitize=fuzzer,address,undefined']),
 }
 
 LIB_DIRS = ['common', 'compress', 'decompress', 'dictBuilder', 'legacy', 'deprecated']
